@@ -231,6 +231,13 @@ func (vc *VC) smoke(kind string) {
 	vc.obls = append(vc.obls, &Obl{Name: name, Kind: "smoke", Prefix: len(vc.lines), Guard: vc.st.Cond, Goal: "false", Func: vc.root.String()})
 }
 
+// smokePath: in path mode an individual path may be infeasible; what must hold is
+// that at least one return path is feasible (checked by the driver).
+func (vc *VC) smokePath(kind string) {
+	vc.smoke(kind)
+	vc.obls[len(vc.obls)-1].Kind = "smoke-path"
+}
+
 // ---- heap --------------------------------------------------------------------
 
 func (vc *VC) heapInit(name, sort string) string {
